@@ -1,34 +1,48 @@
 """C14 -- persisted environments survive crashes: binding of specs/Persist.tla to
-valjean.cambronne.common.write_env / read_env and valjean.cosette.env.Env.to_file / from_file.
+valjean.cambronne.common.write_env / read_env, valjean.cosette.env.Env.to_file / from_file and the write -> read
+cycle of valjean.cambronne.commands.run.RunCommand.execute.
 
 One executor (`World.execute`) performs abstract histories on the REAL code in a scratch directory:
 
     run(t, status, dir)      a new entry (random picklable payload) in the in-memory environment
-    write(order, crash)      write_env on a real Env whose keys are in `order`; a crash is injected
-                             before the j-th entry or after exactly k bytes of its file reached the
-                             disk (the module-global `open` of valjean.cosette.env is replaced by one
-                             that dies -- BaseException -- when its byte budget is used up)
+    write(order, crash)      write_env on a real Env whose keys are in `order`; a crash is injected when the file of a
+                             task is about to be opened or after exactly k bytes of it were written.  The file is
+                             recognised BY ITS PATH (anything opened for writing inside the output directory of the
+                             task: the file itself or a temporary file next to it), whatever flavour of open() is used
+                             (builtins.open, io.open, pathlib, os.fdopen, tempfile, os.open + os.write are wrapped
+                             while write_env runs); the process dies with a BaseException.  A crash point that is never
+                             reached is no crash.
     exit                     the process ends, the in-memory environment is lost
-    fault(t, kind)           the file is removed / emptied / replaced by garbage, a directory or an
+    fault(t, kind)           the file is removed / emptied / cut short / replaced by garbage, a directory or an
                              unopenable object (symlink loop: the checks run as root, chmod is void)
     read / readone(t)        read_env over all tasks / Env.from_file on one file
+    session(tasks, ...)      one session of `valjean run`: RunCommand().execute(args, config) on a job file that builds
+                             probe tasks (hard / soft dependencies; succeed, fail, raise; with or without output
+                             directory).  Logged as read (what read_env returns at the start of the session), one run
+                             per entry of the final in-memory environment that differs from what was read (the task ran,
+                             or its status was changed without it running), the write_env segment, exit.
 
-and logs one event per Persist action with the observed classification of every file and the
-observed outcome of the reads.
+and logs one event per Persist action with the observed classification of every file and the observed outcome of the
+reads.  Persist.tla is a relation: the order of the entries, writing in place or through a temporary file, skipping or
+replacing an unopenable destination are left open and resolved by what was observed; what the statement demands is
+not: when write_env returns, every entry with an output directory counts as written.
 
-spec -> code : behaviours simulated by TLC from Persist.tla are translated to such histories (the
-               abstract `partial` is swept over byte lengths) and the projection of the real world
-               is compared with the TLC state after every segment (files, lastRead, lastOne).
-code -> spec : for a set of payloads EVERY byte length of the serialized entry is left behind by a
-               crash and read back; seeded random long histories (5 tasks, all statuses, faults,
-               re-writes) are executed; all logs are validated by TLC against PersistTrace.tla,
-               which evaluates the clauses of the property on the observed reads.
+spec -> code : behaviours simulated by TLC from Persist.tla (for the way of writing the implementation is observed to
+               use) are translated to such histories (the abstract `partial` is swept over byte lengths) and the
+               projection of the real world is compared with the TLC state after every segment (files, lastRead,
+               lastOne) as long as the implementation makes the choices TLC made.
+code -> spec : for a set of payloads EVERY byte length of the serialized entry is left behind (by a crash, or by cutting
+               the file when the implementation never leaves a partial file) and read back; seeded random long
+               histories (5 tasks, all statuses, faults, re-writes); histories of sessions of RunCommand.execute (every
+               3-task graph x damaged file x failing task, random graphs); all logs are validated by TLC against
+               PersistTrace.tla, which evaluates the clauses of the property on the observed reads.
 """
 import json
 import os
 import pickle
 import random
 import shutil
+import threading
 
 import numpy as np
 
@@ -47,6 +61,7 @@ ALL_STATUSES = ['WAITING', 'PENDING', 'DONE', 'FAILED', 'SKIPPED']
 FAULT_KINDS = ['absent', 'empty', 'garbage', 'dir', 'unreadable']
 FAULT_KINDS_ALL = FAULT_KINDS + ['partial']      # 'partial': a complete file cut short (histories executed on the code only)
 MODES = ['inplace', 'keep']                      # how one file may be written (Persist.tla allows both, file by file)
+SESSION_TIMEOUT = 30
 WIDTH = 5                                        # tasks of the worlds whose logs are validated together
 FILENAME = 'valjean.env'
 VER0 = 10 ** 6      # entries carry VER0 + version: the serialized length does not depend on the version
@@ -236,6 +251,7 @@ class _OpenHooks:
         self.k = k
         self.armed = bool(self.targets)
         self.recs = []
+        self.fds = {}            # descriptors obtained from os.open for writing in the directory of a task
         self.crashed = None      # task whose open / write killed the process
         self.died = False
         self.saved = None
@@ -243,14 +259,15 @@ class _OpenHooks:
     def __enter__(self):
         import builtins
         import io
-        self.saved = (builtins.open, io.open)
+        self.saved = (builtins.open, io.open, os.open, os.write)
         builtins.open = io.open = self._open
+        os.open, os.write = self._os_open, self._os_write
         return self
 
     def __exit__(self, *exc):
         import builtins
         import io
-        builtins.open, io.open = self.saved
+        builtins.open, io.open, os.open, os.write = self.saved
         for rec in self.recs:
             f = rec.pop('file', None)
             if f is not None:
@@ -259,6 +276,50 @@ class _OpenHooks:
                 except Exception:  # pylint: disable=broad-except
                     pass
         return False
+
+    def _os_open(self, path, flags, *args, **kwargs):
+        """os.open for writing: the descriptor is remembered (os.write on it may be where the process dies)."""
+        real = self.saved[2]
+        if not isinstance(flags, int) or not flags & (os.O_WRONLY | os.O_RDWR):
+            return real(path, flags, *args, **kwargs)
+        t, rpath = self.world.task_of(path) if kwargs.get('dir_fd') is None else (None, None)
+        if t is not None and self.armed and t in self.targets and self.k is None:
+            self.armed = False
+            self.crashed = t
+            self.died = True
+            raise _Crash()
+        try:
+            fd = real(path, flags, *args, **kwargs)
+        except OSError as ex:
+            if t is not None:
+                self.recs.append(dict(t=t, dest=(rpath == self.world.path(t)), err=type(ex).__name__, written=0))
+            raise
+        if t is None:
+            t, rpath = self.world.task_of(fd)
+        if t is not None:
+            rec = dict(t=t, dest=(rpath == self.world.path(t)), err=None, written=0)
+            self.recs.append(rec)
+            self.fds[fd] = rec
+        return fd
+
+    def _os_write(self, fd, data):
+        real = self.saved[3]
+        rec = self.fds.get(fd)
+        if rec is None or not self.armed or rec['t'] not in self.targets or self.k is None:
+            return real(fd, data)
+        if self.world.task_of(fd)[0] != rec['t']:
+            return real(fd, data)            # the descriptor number was re-used for something else
+        if len(data) <= self.k:
+            self.k -= len(data)
+            rec['written'] += len(data)
+            return real(fd, data)
+        if self.k:
+            real(fd, bytes(data[:self.k]))
+        rec['written'] += self.k
+        self.armed = False
+        self.crashed = rec['t']
+        self.died = True
+        raise _Crash()
 
     def _open(self, file, mode='r', *args, **kwargs):
         real = self.saved[0]
@@ -719,7 +780,8 @@ class World:
         specs = []
         for ts in tasks:
             rng = random.Random('%d/s%d/t%d' % (self.seed, self.nsession, ts['t']))
-            payload = {'result': gen_payload(rng), 'token': [self.seed, self.nsession, ts['t']]}
+            # (the payload is wrapped in a list: Env.apply merges mappings key by key into what an earlier run left)
+            payload = {'result': [gen_payload(rng)], 'token': [self.seed, self.nsession, ts['t']]}
             ppath = os.path.join(aux, 'p%d_%d.pkl' % (self.nsession, ts['t']))
             with open(ppath, 'wb') as f:
                 pickle.dump(payload, f)
@@ -734,14 +796,27 @@ class World:
         config = Config({'path': {'log-root': os.path.join(self.root, '.log'), 'output-root': self.root,
                                   'report-root': os.path.join(self.root, '.report')}})
         before = {t: self.classify(t) for t in range(1, self.ntasks + 1)}
-        try:
-            final = RunCommand().execute(args, config)
-        except Exception as ex:  # pylint: disable=broad-except
+        box = {}
+
+        def target():
+            try:
+                box['env'] = RunCommand().execute(args, config)
+            except BaseException as ex:  # pylint: disable=broad-except
+                box['ex'] = ex
+        # in a daemon thread (the workers of the scheduler inherit the flag): a session that never comes back must not
+        # hang the check
+        th = threading.Thread(target=target, daemon=True)
+        th.start()
+        th.join(SESSION_TIMEOUT)
+        if th.is_alive() or 'ex' in box:
             # not what C14 is about (C02/C03/C19): the history ends here
-            self.notes.append(('session-raised', 'RunCommand.execute raised %s: %s' % (type(ex).__name__, str(ex)[:200])))
+            what = 'did not come back within %d s' % SESSION_TIMEOUT if th.is_alive() else \
+                'raised %s: %s' % (type(box['ex']).__name__, str(box['ex'])[:200])
+            self.notes.append(('session-failed', 'RunCommand.execute %s (session %d of %s)' % (what, self.nsession, tasks)))
             self.exit()
             self.stop = True
             return
+        final = box['env']
         order = []
         for name, entry in final.items():
             if name not in self.names or not isinstance(entry, dict) or 'status' not in entry:
@@ -1127,7 +1202,8 @@ def replay_behaviour(ctx, beh, ntasks, seed, sweeps, stats, keep):
         if has_read and any(k in kinds for k in ('empty', 'partial', 'garbage', 'dir', 'unreadable')):
             ctx.distinct(('beh', tuple(json.dumps(e, sort_keys=True) for e in concrete)))
         shutil.rmtree(world.root, ignore_errors=True)
-        keep.append(world)
+        if sweep < 6:
+            keep.append(world)
     return runs, len(evs)
 
 
@@ -1151,8 +1227,14 @@ def scan_every_byte(seed, ntasks, n_payloads, statuses):
         world.execute([dict(op='exit')])
         for k in range(0, length):
             world.execute([dict(op='run', t=t, status=status, dir=True, pid=p),
-                           dict(op='write', order=[t], crash=dict(tasks=[t], k=k)),
-                           dict(op='read'), dict(op='exit'), dict(op='readone', t=t)])
+                           dict(op='write', order=[t], crash=dict(tasks=[t], k=k))])
+            path = world.path(t)
+            if not os.path.isfile(path) or os.path.getsize(path) != k:
+                # the crash did not leave k bytes behind (the destination is only replaced by a complete file, or the
+                # crash point was not reached): a file of k bytes is still something a reader can meet
+                world.execute([dict(op='exit'), dict(op='run', t=t, status=status, dir=True, pid=p), dict(op='write', order=[t]),
+                               dict(op='exit'), dict(op='fault', t=t, kind='partial' if k else 'empty', which=k - 1)])
+            world.execute([dict(op='read'), dict(op='exit'), dict(op='readone', t=t)])
         world.scan = (t, status, length)
         worlds.append(world)
     return worlds
@@ -1344,7 +1426,8 @@ def run_c14(ctx):
     if not injected:
         drifts.add('crash-injection', 'a crash planned inside the write of a file never happened: the file is not opened through '
                    'builtins.open / io.open; crash points are not exercised')
-    sim_cfg = tlc.write_cfg(os.path.join(wd, 'sim.cfg'), constants=_consts(3, ['DONE', 'FAILED', 'SKIPPED'], 6, 2, 5, modes=modes),
+    sim_cfg = tlc.write_cfg(os.path.join(wd, 'sim.cfg'), constants=_consts(3, ['DONE', 'FAILED', 'SKIPPED'], 6, 2, 5,
+                                                                             FAULT_KINDS if 'inplace' in modes else FAULT_KINDS_ALL, modes),
                             invariants=INVS, deadlock=False)
     nsim = ctx.pick(150, 1500)
     prefix = os.path.join(wd, 'sim', 'b')
@@ -1378,8 +1461,17 @@ def run_c14(ctx):
     worlds = scan_every_byte(seed, 2, n_payloads, ['DONE', 'DONE', 'FAILED', 'DONE', 'SKIPPED'])
     nbytes = sum(w.scan[2] for w in worlds)
     dbg('scan executed')
-    logs = [(i + 1, w.log) for i, w in enumerate(worlds)]
-    verdict, nev = validate_logs(logs, 2, wd, ctx, 'PersistTrace/every-byte')
+    # (TLC judges the scan in the background while the histories are executed)
+    scan_pool = ThreadPoolExecutor(max_workers=1)
+    scan_job = scan_pool.submit(validate_logs, [(i + 1, w.log) for i, w in enumerate(worlds)], 2, wd, ctx, 'PersistTrace/every-byte')
+    nhist = ctx.pick(300, 4000)
+    hworlds = [random_history(seed, i, WIDTH, ctx.pick(40, 60)) for i in range(nhist)]
+    dbg('histories executed')
+    sworlds = systematic_sessions(seed, ctx.quick) + [random_sessions(seed, i) for i in range(ctx.pick(80, 1500))]
+    nsessions = sum(w.nsession for w in sworlds)
+    dbg('%d sessions executed' % nsessions)
+    verdict, nev = scan_job.result()
+    scan_pool.shutdown()
     dbg('scan validated')
     _digest(ctx, drifts, verdict, worlds, 2)
     ctx.count(evaluations=sum(w.n_reads for w in worlds), traces=len(worlds))
@@ -1389,13 +1481,6 @@ def run_c14(ctx):
         shutil.rmtree(w.root, ignore_errors=True)
     ctx.sample(dict(source='every-byte scan', payloads=n_payloads, truncated_files_read=nbytes, events_validated_by_TLC=nev,
                     first_log=worlds[0].log[:8]))
-
-    nhist = ctx.pick(300, 4000)
-    hworlds = [random_history(seed, i, WIDTH, ctx.pick(40, 60)) for i in range(nhist)]
-    dbg('histories executed')
-    sworlds = systematic_sessions(seed, ctx.quick) + [random_sessions(seed, i) for i in range(ctx.pick(120, 1500))]
-    nsessions = sum(w.nsession for w in sworlds)
-    dbg('%d sessions executed' % nsessions)
     allw = hworlds + sworlds + rworlds
     logs = [(i + 1, w.log) for i, w in enumerate(allw)]
     verdict, nev2 = validate_logs(logs, WIDTH, wd, ctx, 'PersistTrace/histories+sessions+replayed')
